@@ -509,8 +509,9 @@ func (n *ForNode) renderForLoop(w io.Writer, ctx *RenderContext, seq interface{}
 			loopVars["loop"].(map[string]interface{})["last"] = i == length-1
 
 			// Set the value variable
-			if val.MapIndex(key).CanInterface() {
-				loopCtx.SetVariable(n.valueVar, val.MapIndex(key).Interface())
+			// (a NaN key has no value that a lookup could find)
+			if elem := val.MapIndex(key); elem.IsValid() && elem.CanInterface() {
+				loopCtx.SetVariable(n.valueVar, elem.Interface())
 			} else {
 				loopCtx.SetVariable(n.valueVar, nil)
 			}
